@@ -79,17 +79,21 @@ def validate(chk, cases, rows):
     return rejected
 
 
-def selftest(chk, rows):
+def selftest(chk, rows, skip=()):
     """Binding demonstration / vacuity guard: corrupted copies of an accepted trace must be rejected by the expected formula."""
-    base = None
     for r in rows:
         t = r.get("trace") or []
         kinds = {e["ev"] for e in t}
-        if {"commit", "rxku", "read", "ret", "acked", "deliver"} <= kinds and not r.get("violations"):
-            base = t
-            break
-    if base is None:
-        raise vlib.Inconclusive("no session with a complete key update to run the trace self-test on")
+        if r["case"] in skip or r.get("violations") or not {"commit", "rxku", "read", "ret", "acked", "deliver"} <= kinds:
+            continue
+        try:
+            return selftest_on(chk, t)
+        except (ValueError, TypeError):
+            continue        # this session lacks the event pattern a corruption needs
+    raise vlib.Inconclusive("no session with a complete key update to run the trace self-test on")
+
+
+def selftest_on(chk, base):
     def first(ev, **kw):
         for i, e in enumerate(base):
             if e["ev"] == ev and all(e.get(k) == v for k, v in kw.items()):
@@ -153,7 +157,8 @@ def run_free(chk, binary):
     rows.sort(key=lambda r: r["case"])
     flagged, tot = evaluate(chk, cases, rows)
     rejected = validate(chk, cases, rows)
-    selftest(chk, rows)
+    if not flagged and not rejected:
+        selftest(chk, rows)
     chk.traces(len(rows))
     for case_id, why, formula in rejected:
         kind = {"UpdateKeysReturnsAfterAck": "updatekeys-returned-before-ack", "AtMostOnceUnmodified": "payload-twice",
@@ -163,7 +168,7 @@ def run_free(chk, binary):
     chk.parts["free_running"] = dict(tot, sessions=len(rows), sessions_rejected_by_tlc=len(rejected), sessions_flagged_by_harness=len(flagged))
     chk.sample({"free_session": {k: cases[0][k] for k in ("seed", "loss", "dup", "delay", "writers", "updC", "updS", "craft")},
                 "result": {k: rows[0].get(k) for k in ("writes", "reads", "unfaulted", "updates", "commits", "maxEpoch")}})
-    if tot["updates"] < len(rows) // 2 or tot["commits"] == 0 or tot["unfaulted"] < 100 or tot["secrets"] == 0:
+    if (tot["updates"] < len(rows) // 2 or tot["commits"] == 0 or tot["unfaulted"] < 100 or tot["secrets"] == 0) and not chk.violations:
         raise vlib.Inconclusive("vacuous free-running part: %s" % tot)
 
 
